@@ -4,6 +4,7 @@ import (
 	"bufio"
 	"fmt"
 	"io"
+	"os"
 	"os/exec"
 	"strconv"
 	"strings"
@@ -30,6 +31,8 @@ type Solver struct {
 	log                          io.Writer
 	lastErr                      string
 }
+
+var slowLog = os.Getenv("VERIF_SLOWLOG")
 
 func solverCommand(kind string) (string, []string) {
 	switch kind {
@@ -216,6 +219,22 @@ func (s *Solver) Check(extra ...*Term) string {
 		s.send("(check-sat-assuming (" + strings.Join(names, " ") + "))")
 	}
 	lines, sawErr := s.sync()
+	if slowLog != "" {
+		if d := time.Since(t0); d > 10*time.Millisecond {
+			f, _ := os.OpenFile(slowLog, os.O_CREATE|os.O_APPEND|os.O_WRONLY, 0644)
+			sz := 0
+			for _, e := range extra {
+				sz += len(e.String())
+			}
+			fmt.Fprintf(f, "%v nlits=%d size=%d\n", d, len(extra), sz)
+			if d > 100*time.Millisecond {
+				for _, e := range extra {
+					fmt.Fprintf(f, "   %s\n", e.String())
+				}
+			}
+			f.Close()
+		}
+	}
 	r := "unknown"
 	for _, l := range lines {
 		if l == "sat" || l == "unsat" || l == "unknown" {
@@ -281,4 +300,95 @@ func (s *Solver) Close() {
 	s.in.Flush()
 	s.inC.Close()
 	s.cmd.Wait()
+}
+
+// Model reads the values of the given variables after a sat answer.
+func (s *Solver) Model(vars []*Term) (map[*Term]uint64, bool) {
+	out := make(map[*Term]uint64, len(vars))
+	var names []string
+	var ask []*Term
+	for _, v := range vars {
+		if s.emit[v] {
+			names = append(names, v.name)
+			ask = append(ask, v)
+		}
+	}
+	if len(ask) == 0 {
+		return out, true
+	}
+	s.send("(get-value (" + strings.Join(names, " ") + "))")
+	lines, sawErr := s.sync()
+	if sawErr {
+		return nil, false
+	}
+	txt := strings.Join(lines, " ")
+	// ((a #x01) (b true) (c (_ bv3 8)) ...)
+	byName := make(map[string]*Term, len(ask))
+	for _, v := range ask {
+		byName[v.name] = v
+	}
+	i := 0
+	n := len(txt)
+	for i < n {
+		// find "(name "
+		j := strings.IndexByte(txt[i:], '(')
+		if j < 0 {
+			break
+		}
+		i += j + 1
+		k := i
+		for k < n && txt[k] != ' ' && txt[k] != '(' && txt[k] != ')' {
+			k++
+		}
+		name := txt[i:k]
+		v, ok := byName[name]
+		if !ok {
+			i = k
+			continue
+		}
+		i = k
+		for i < n && txt[i] == ' ' {
+			i++
+		}
+		var val uint64
+		switch {
+		case strings.HasPrefix(txt[i:], "#x"):
+			e := i + 2
+			for e < n && txt[e] != ')' && txt[e] != ' ' {
+				e++
+			}
+			val, _ = strconv.ParseUint(txt[i+2:e], 16, 64)
+			i = e
+		case strings.HasPrefix(txt[i:], "#b"):
+			e := i + 2
+			for e < n && txt[e] != ')' && txt[e] != ' ' {
+				e++
+			}
+			val, _ = strconv.ParseUint(txt[i+2:e], 2, 64)
+			i = e
+		case strings.HasPrefix(txt[i:], "true"):
+			val = 1
+			i += 4
+		case strings.HasPrefix(txt[i:], "false"):
+			val = 0
+			i += 5
+		case strings.HasPrefix(txt[i:], "(_ bv"):
+			e := i + 5
+			for e < n && txt[e] != ' ' {
+				e++
+			}
+			val, _ = strconv.ParseUint(txt[i+5:e], 10, 64)
+			for e < n && txt[e] != ')' {
+				e++
+			}
+			i = e + 1
+		default:
+			return nil, false
+		}
+		out[v] = val
+	}
+	if len(out) != len(ask) {
+		return nil, false
+	}
+	return out, true
 }
